@@ -194,8 +194,8 @@ func (s *Store) Statistics(tags map[string]string) []models.Statistic {
 
 func (s *Store) IndexBytes() int {
 	// Build index set to work on.
-	is := IndexSet{Indexes: make([]Index, 0, len(s.shardIDs()))}
 	s.mu.RLock()
+	is := IndexSet{Indexes: make([]Index, 0, len(s.shardIDs()))}
 	for _, sid := range s.shardIDs() {
 		shard, ok := s.shards[sid]
 		if !ok {
